@@ -590,7 +590,7 @@ Qed.
 
 (* the fresh endpoint satisfies the side conditions *)
 Lemma cl_new_cinv cv : cl_cinv (kcp_new cv).
-Proof. constructor; cbn; [constructor|constructor|unfold H32; lia]. Qed.
+Proof. constructor; unfold kcp_new; cbn [snd_queue snd_buf fastresend]; [constructor|constructor|unfold H32; lia]. Qed.
 
 (* (1, wire) the data segments a full flush puts on the wire are exactly, in order, the buffer
    entries it transmitted; adm = the entries admitted by this flush *)
@@ -613,4 +613,87 @@ Proof.
   destruct b; cbn beta iota in *.
   - destruct Hb as (Ha & rto & fa & Es & _). split; [exact Ha|]. subst s'. reflexivity.
   - apply Hb.
+Qed.
+
+(* ------------------------------------------------------------------ *)
+(* 5. a decision procedure for clean_history (used by the Example)     *)
+(* ------------------------------------------------------------------ *)
+Definition cl_fresh_b (k : kcp) (now : Z) : bool :=
+  forallb (fun s => (s_acked s =? 1) || (s_xmit s =? 0) ||
+                    ((0 <=? itimediff now (s_ts s)) && (itimediff now (s_ts s) <? rx_minrto k))) (snd_buf k).
+
+Definition cl_in_order_b (k : kcp) (sn : Z) : bool :=
+  forallb (fun e => negb (itimediff sn (s_sn e) >? 0) || (s_acked e =? 1)) (snd_buf k).
+
+Fixpoint cl_acks_in_order_b (fuel : nat) (a : inp) (data : bytes) (regular : bool) : bool :=
+  match fuel with
+  | O => true
+  | S f =>
+      if blen data <? c_IKCP_OVERHEAD then true
+      else match input_seg a data regular with
+           | inl (Ok (a', rest)) =>
+               (negb (s_cmd (lv_hdr_of data) =? c_IKCP_CMD_ACK) ||
+                cl_in_order_b (lv_pre a (lv_hdr_of data) regular) (s_sn (lv_hdr_of data))) &&
+               cl_acks_in_order_b f a' rest regular
+           | _ => true
+           end
+  end.
+
+Definition cl_op_ok_b (k : kcp) (o : op) : bool :=
+  match o with
+  | ONoDelay _ _ _ _ => false
+  | OInput d regular _ now =>
+      cl_acks_in_order_b (S (length d / 24)) (mkInp k 0 false false) d regular && cl_fresh_b k now
+  | OFlush full now => negb full || cl_fresh_b k now
+  | OUpdate now => cl_fresh_b k now
+  | _ => true
+  end.
+
+Fixpoint clean_history_b (k : kcp) (ops : list op) : bool :=
+  match ops with
+  | [] => true
+  | o :: t => cl_op_ok_b k o && match step k o with Ok (k', _) => clean_history_b k' t | Panic _ => true end
+  end.
+
+Lemma cl_fresh_b_sound k now : cl_fresh_b k now = true -> cl_fresh k now.
+Proof.
+  unfold cl_fresh_b, cl_fresh. rewrite forallb_forall, Forall_forall. intros H s Hs Ha Hx.
+  specialize (H s Hs). apply orb_true_iff in H. destruct H as [H|H].
+  - apply orb_true_iff in H. destruct H as [H|H]; lv_b2z; contradiction.
+  - apply andb_true_iff in H. destruct H as (H1 & H2). lv_b2z. lia.
+Qed.
+
+Lemma cl_in_order_b_sound k sn : cl_in_order_b k sn = true -> cl_in_order k sn.
+Proof.
+  unfold cl_in_order_b, cl_in_order. rewrite forallb_forall, Forall_forall. intros H e He Hgt.
+  specialize (H e He). apply orb_true_iff in H. destruct H as [H|H]; lv_b2z; [|exact H].
+  apply negb_true_iff in H. lv_b2z. lia.
+Qed.
+
+Lemma cl_acks_in_order_b_sound regular : forall fuel a data,
+  cl_acks_in_order_b fuel a data regular = true -> cl_acks_in_order fuel a data regular.
+Proof.
+  induction fuel as [|f IH]; intros a data H; cbn [cl_acks_in_order_b cl_acks_in_order] in *; [exact I|].
+  destruct (blen data <? c_IKCP_OVERHEAD); [exact I|].
+  destruct (input_seg a data regular) as [[[a' rest]|w]|c]; try exact I.
+  apply andb_true_iff in H. destruct H as (H1 & H2). split; [|apply IH; exact H2].
+  intros Hc. apply cl_in_order_b_sound. apply orb_true_iff in H1. destruct H1 as [H1|H1]; [|exact H1].
+  apply negb_true_iff in H1. lv_b2z. contradiction.
+Qed.
+
+Lemma cl_op_ok_b_sound k o : cl_op_ok_b k o = true -> cl_op_ok k o.
+Proof.
+  destruct o as [b|n|d reg nd now|full now|now|now|m|nd iv rs nc]; cbn [cl_op_ok_b cl_op_ok]; intros H; try exact I.
+  - apply andb_true_iff in H. destruct H as (H1 & H2).
+    split; [apply cl_acks_in_order_b_sound; exact H1|apply cl_fresh_b_sound; exact H2].
+  - intros Hf. subst full. cbn [negb orb] in H. apply cl_fresh_b_sound. exact H.
+  - apply cl_fresh_b_sound. exact H.
+  - discriminate.
+Qed.
+
+Lemma clean_history_b_sound : forall ops k, clean_history_b k ops = true -> clean_history k ops.
+Proof.
+  induction ops as [|o t IH]; intros k H; cbn [clean_history_b clean_history] in *; [exact I|].
+  apply andb_true_iff in H. destruct H as (H1 & H2). split; [apply cl_op_ok_b_sound; exact H1|].
+  destruct (step k o) as [[k1 x]|w]; [apply IH; exact H2|exact I].
 Qed.
